@@ -27,6 +27,7 @@ import (
 	dht "github.com/anacrolix/dht/v2"
 	"github.com/anacrolix/dht/v2/bep44"
 	"github.com/anacrolix/dht/v2/krpc"
+	peer_store "github.com/anacrolix/dht/v2/peer-store"
 )
 
 func init() { engines["server"] = serverEngine }
@@ -46,6 +47,7 @@ type srvCfg struct {
 	publicIP  net.IP
 	storeFail bool // the underlying BEP 44 store fails Put for items with seq % 7 == 3
 	cbBlock   bool // the OnAnnouncePeer hook does not return until the history releases it (event hookrel)
+	psEmpty   bool // the peer store answers "no peers" with an empty non-nil slice instead of nil
 	scenario string
 }
 
@@ -193,6 +195,16 @@ func (f failingStore) Put(i *bep44.Item) error {
 	return f.Memory.Put(i)
 }
 
+// a peer store that reports "no peers known" as an empty, non-nil slice (the interface does not say which)
+type emptySlicePeerStore struct{ *recPeerStore }
+
+func (p emptySlicePeerStore) GetPeers(ih peer_store.InfoHash) []krpc.NodeAddr {
+	if l := p.recPeerStore.GetPeers(ih); len(l) > 0 {
+		return l
+	}
+	return []krpc.NodeAddr{}
+}
+
 func startServer(c *srvCase) *srvState {
 	st := &srvState{c: c, conn: newFakeConn(), cancels: map[int]context.CancelFunc{}, doneQ: map[int]bool{}, qdst: map[int]*net.UDPAddr{}, qt: map[int]string{},
 		tokens: map[string][]tokInfo{}, announced: map[string]map[string]int{}, lastTok: map[string]string{}, bl: c.cfg.bl}
@@ -224,6 +236,9 @@ func startServer(c *srvCase) *srvState {
 	if c.cfg.ps {
 		st.ps = &recPeerStore{}
 		cfg.PeerStore = st.ps
+		if c.cfg.psEmpty {
+			cfg.PeerStore = emptySlicePeerStore{st.ps}
+		}
 	}
 	if c.cfg.cb {
 		cfg.OnAnnouncePeer = func(ih metainfo.Hash, ip net.IP, port int, portOk bool) {
@@ -1087,6 +1102,28 @@ func (st *srvState) oracleNodes(e *sev, in *krpc.Msg, out *krpc.Msg, pre []dht.V
 	}
 	check(out.R.Nodes, false, "nodes")
 	check(out.R.Nodes6, true, "nodes6")
+	if len(out.R.Values) == 0 && (len(out.R.Nodes) > 0) != (len(out.R.Nodes6) > 0) {
+		// no values, one list present: the other family's list may be missing only if the requester does not want it
+		// or no good contact of that family exists at or below the start bucket
+		start := 159
+		if target != c.cfg.root {
+			start = sharedPrefix(c.cfg.root, target)
+		}
+		for _, n := range pre {
+			v6 := net.IP(n.IP).To4() == nil
+			if !n.Good || n.Bucket > start {
+				continue
+			}
+			if v6 && w6 && len(out.R.Nodes6) == 0 {
+				oracle("C09", "nodes6-missing-while-good-ipv6-contacts-exist", "%s method=%s start=%d have=%x", ctxs, in.Q, start, n.Id)
+				break
+			}
+			if !v6 && w4 && len(out.R.Nodes) == 0 {
+				oracle("C09", "nodes-missing-while-good-ipv4-contacts-exist", "%s method=%s start=%d have=%x", ctxs, in.Q, start, n.Id)
+				break
+			}
+		}
+	}
 	if len(out.R.Nodes) == 0 && len(out.R.Nodes6) == 0 && len(out.R.Values) == 0 {
 		// nothing listed: then no good contact of the right family may exist at or below the start bucket
 		start := 159
